@@ -3,7 +3,7 @@
    [src_shape], the decision shapes tools/src2coq.py reads from rotatingfilesink.cpp / filesink.cpp /
    iodevicesink.cpp on every run.  [run src_shape c t0 ops] is the model the check executes against
    the real sink (coq/extract/Ex_rotate.v extracts these very definitions).
-   Quantification: every op list [ops] (Write of any payload / Advance of the wall clock, never
+   Quantification: every op list [ops] (Write of any payload and any message type / Advance of the wall clock, never
    backwards / Restart / PutForeign), every configuration [c] (any L, any N, all 8 option sets, three
    timestamp granularities, any base name and suffix, any time zone offset within +-24 h), any start time.  Hypothesis [clean c ops]:
    nobody else creates files that follow the sink's own rotated-name scheme (PutForeign names are
@@ -30,14 +30,22 @@ Theorem C07_never_split : forall c t0 ops, clean c ops -> let w := run src_shape
 Proof. exact (fun c t0 ops H => conj (T_history_conserved src_shape C07_source_shape c t0 ops H) (proj1 (T_records_whole src_shape C07_source_shape c t0 ops H))). Qed.
 Print Assumptions C07_never_split.
 
+(* the QtMsgType of a message is no parameter of the sink: the same history with ANY other assignment of types (every record
+   fatal, say) produces the same directory, the same ghost data, hence the same verdict of every theorem above.  (The size
+   bound itself already quantifies over all types: [Write] carries the type and [ops] is arbitrary.) *)
+Theorem C07_message_type_irrelevant : forall c t0 ops (f : mtype -> mtype),
+  run src_shape c t0 (map (retype f) ops) = run src_shape c t0 ops /\ (clean c ops -> clean c (map (retype f) ops)).
+Proof. exact (fun c t0 ops f => conj (T_retype_run src_shape c f t0 ops) (clean_retype c f ops)). Qed.
+Print Assumptions C07_message_type_irrelevant.
+
 (* the boolean oracle of the check *)
 Theorem C07_oracle_holds : forall c t0 ops, clean c ops -> let w := run src_shape c t0 ops in prop_c07_b std_shape c (snap_of w) = true.
 Proof. exact (fun c t0 ops H => proj1 (proj2 (proj2 (T_oracles src_shape C07_source_shape c t0 ops H)))). Qed.
 Print Assumptions C07_oracle_holds.
 
-(* non-vacuity: L = 4; records of 2, 2 (fits exactly), 1 (rotates), 6 (over-limit, alone), 1 bytes *)
+(* non-vacuity: L = 4; records of 2, 2 (fits exactly), 1 (rotates), 6 (over-limit, alone), 1 bytes - the last one, which rotates, is fatal *)
 Example C07_nonvacuous :
   let c := {| cL := 4; cN := 0; startup := false; daily := false; compress := false; cgran := G1ms; cbase := [97%N]; csuffix := []; ctz := 0 |} in
-  let w := run src_shape c 0 [Write [120%N]; Write [120%N]; Write []; Write [1%N; 2%N; 3%N; 4%N; 5%N]; Write []] in
+  let w := run src_shape c 0 [Write TInfo [120%N]; Write TFatal [120%N]; Write TDebug []; Write TWarning [1%N; 2%N; 3%N; 4%N; 5%N]; Write TFatal []] in
   (map (fun f => size (fcont f)) (rot w), size (act w)) = ([4; 1; 6], 1).
 Proof. vm_compute. reflexivity. Qed.
